@@ -43,7 +43,7 @@ impl Spec {
     }
 }
 
-pub const LOCALES: &[&str] = &["en", "fr", "de", "ja", "ar", "ru"];
+pub const LOCALES: &[&str] = &["en", "fr", "de", "ja", "ar", "ru", "pt", "pt-PT"];
 
 /// One value of every shape; an op uses the accessor that fits its formatter kind.
 #[derive(Debug, Clone)]
@@ -191,7 +191,8 @@ pub fn reference(spec: Spec, loc: &str, v: &Val) -> Result<String, String> {
     }
 }
 
-pub const F64S: &[f64] = &[0.0, 0.5, 1.0, -1.5, 2000.5, 1234.5678, 1e15, 0.1, 99999.99];
+// whole values beyond the i64 / u64 ranges included: the conversion must not go through an integer type
+pub const F64S: &[f64] = &[0.0, 0.5, 1.0, -1.5, 2000.5, 1234.5678, 1e15, 0.1, 99999.99, 1e19, -1e19, 9.3e18, 1.8446744073709552e19, 1e22, -0.0, 4503599627370496.0];
 
 /// The documented conversion of an `f64`: `FixedDecimal::try_from_f64` with floating precision.
 pub fn f64_to_fixed(x: f64) -> FixedDecimal {
